@@ -3791,13 +3791,16 @@ impl<'source> Parser<'source> {
             },
             'u' => match chars.next() {
                 Some('{') => {
-                    let mut code = 0;
+                    let mut code: u32 = 0;
 
                     while let Some(c) = chars.peek().cloned() {
                         if c.is_ascii_hexdigit() {
                             chars.next();
-                            code *= 16;
-                            code += c.to_digit(16).unwrap();
+                            // Codes with too many digits saturate, and are then reported as being
+                            // out of range.
+                            code = code
+                                .saturating_mul(16)
+                                .saturating_add(c.to_digit(16).unwrap());
                         } else {
                             break;
                         }
